@@ -302,10 +302,12 @@ def c06(tier, replay=None):
         plans = [("loop3-d4", dict(itr_only, SCRIPT="ScriptLoop", MaxHist=4, NAMES='{"_x", "_y", "_z"}', MaxPkt=2, PVALS='{"s1", "s2", "u"}'), "states"),
                  # a loop without category: iterate, remove, close, then add packets again (row numbering after removal)
                  ("loopnull-d6", dict(CODES='{"a"}', CATS='{"NULL"}', VALS='{"s1"}', PVALS='{"s1", "s2"}', MaxNames=1, MaxLast=4, NAMES='{"_x"}', MaxPkt=1, SCRIPT="ScriptLoopN", MaxHist=6, CSLOTS="MCCSlots1", LSLOTS="MCLSlots1"), "states"),
+                 ("refused-d3", dict(itr_only, SCRIPT="ScriptRefused", MaxHist=3, NAMES='{"_x", "_y", "_z"}', MaxPkt=2, PVALS='{"s1", "s2"}'), "states"),
                  ("cross-d3", dict(itr_only, SCRIPT="ScriptCross", MaxHist=3, CODES='{"a", "b"}', NAMES='{"_x", "_y"}', VALS='{"s1"}', PVALS='{"s1", "s2"}', MaxNames=1, MaxPkt=1, MaxId=2, CSLOTS="MCCSlots2", LSLOTS="MCLSlots2"), "states")]
     else:
         plans = [("cross-d4", dict(itr_only, SCRIPT="ScriptCross", MaxHist=4, CODES='{"a", "b"}', NAMES='{"_x", "_y"}', VALS='{"s1"}', PVALS='{"s1", "s2"}', MaxNames=1, MaxPkt=1, MaxId=2, CSLOTS="MCCSlots2", LSLOTS="MCLSlots2"), "states"),
                  ("loop3-d5", dict(itr_only, SCRIPT="ScriptLoop", MaxHist=5, NAMES='{"_x", "_y", "_z"}', MaxPkt=2), "states"),
+                 ("refused-d4", dict(itr_only, SCRIPT="ScriptRefused", MaxHist=4, NAMES='{"_x", "_y", "_z"}', MaxPkt=2, PVALS='{"s1", "s2"}'), "states"),
                  ("loopnull-d7", dict(CODES='{"a"}', CATS='{"NULL"}', VALS='{"s1"}', PVALS='{"s1", "s2"}', MaxNames=1, MaxLast=5, NAMES='{"_x"}', MaxPkt=1, SCRIPT="ScriptLoopN", MaxHist=7, CSLOTS="MCCSlots1", LSLOTS="MCLSlots1"), "states"),
                  ("loop1-d5", dict(itr_only, SCRIPT="ScriptLoop1", MaxHist=5, NAMES='{"_x", "_X", "_y", "_z"}', MaxPkt=2, PVALS='{"s1", "s2", "u"}'), "states")]
     for name, params, mode in plans:
